@@ -1,6 +1,7 @@
 package harness
 
 import (
+	"sort"
 	"encoding/hex"
 	"fmt"
 	"math/rand/v2"
@@ -109,6 +110,13 @@ func genC04(seed uint64, tier string) *plan.Plan {
 			}
 			delete(current, k)
 			add(client, b, kind)
+		case x < 7 && x >= 6 && current[k] != nil:
+			// a template record with no fields for an id that has a template (RFC 7011 8.1 uses this
+			// shape to withdraw a template): it is the most recent template now, and defines nothing
+			t := gTemplate{Dom: k.dom, ID: k.id}
+			stale[k] = current[k]
+			delete(current, k)
+			add(client, t.templateMsg(hdr()), "template-empty")
 		case x < 6: // bad template, fails before the id can be read
 			b := ipfixref.EncodeMessage(ipfixref.Header{Domain: k.dom}, ipfixref.EncodeSet(2, []byte{1, 0}[:r.IntN(3)]))
 			add(client, b, "badtemplate-noid")
@@ -123,9 +131,15 @@ func genC04(seed uint64, tier string) *plan.Plan {
 				kind = "data-stale"
 			default:
 				// data for an id that has no template in this domain: use another key's template shape
-				for _, ot := range current {
-					t = ot
-					break
+				var ks []tkey
+				for ok := range current {
+					ks = append(ks, ok)
+				}
+				sort.Slice(ks, func(a, b int) bool {
+					return ks[a].dom < ks[b].dom || (ks[a].dom == ks[b].dom && ks[a].id < ks[b].id)
+				})
+				if len(ks) > 0 {
+					t = current[ks[0]]
 				}
 				kind = "data-orphan"
 			}
